@@ -186,7 +186,14 @@ package taskfile
 
 // ---- C20: looking for the remote file honours the caller's deadline (--timeout): every request is made with
 // the context that was passed in, so a server that accepts the connection and then stalls cannot hold Task up
+//@ ghost var altURL *url.URL scratch
 //@ func RemoteExists
+// where a remote file IS (its cache key; what its relative includes resolve against) is decided by the include
+// statement - the URL asked about, or that URL with a default file name joined on - never by what a server answered
+// (a redirect target): the same file must get the same location when it is later read from the cache, offline
+//@   init altURL := nil
+//@   site (*URL).JoinPath#0 ghost altURL := result
+//@   ensures result.1 == nil ==> result.0 == u || result.0 == altURL                                            [C20]
 //@   site http.NewRequestWithContext#0 requires arg0 == ctx                                                    [C20]
 //@   nosite http.Head                                                                                          [C20]
 //@   nosite http.Get                                                                                           [C20]
